@@ -537,6 +537,8 @@ class WebSocket:
         """
         if status < 0 or status >= ABNF.LENGTH_16:
             raise ValueError("code is invalid range")
+        if isinstance(reason, str):
+            reason = reason.encode("utf-8")
         self.connected = False
         self.send(struct.pack("!H", status) + reason, ABNF.OPCODE_CLOSE)
 
@@ -562,6 +564,8 @@ class WebSocket:
             return
         if status < 0 or status >= ABNF.LENGTH_16:
             raise ValueError("code is invalid range")
+        if isinstance(reason, str):
+            reason = reason.encode("utf-8")
 
         try:
             self.connected = False
